@@ -106,6 +106,8 @@ theorem doublesign_burns_all (s s' : State) (a : Addr) (ih et pw : Int) (v : Val
   rename_i si hsi
   split at hd
   · cases hd
+  split at hd
+  · cases hd
   have h0 : 0 ≤ v.tokens := h.wf.tokNonneg _ (aget_mem _ _ _ hv)
   have hstake : v.tokens ≤ balOf s s.pool :=
     Int.le_trans (tokens_le_stakeSum s a v h.wf.tokNonneg hv hst') h.pool
